@@ -506,7 +506,11 @@ func suffixFromGroupMustContain(pat string, n int, ch rune) bool {
 // arguments at its call sites.
 func paramClasses(p *Program, prm *ssa.Parameter, rg map[*ssa.Global]string) ([]aval, string, bool) {
 	fn := prm.Parent()
-	if fn == nil || fn.Pkg == nil || fn.Object() == nil || fn.Object().Exported() || fn.Signature.Recv() != nil {
+	if fn == nil {
+		return nil, "", false
+	}
+	sites, ok := p.directCallSites(fn)
+	if !ok {
 		return nil, "", false
 	}
 	pi := -1
@@ -520,56 +524,42 @@ func paramClasses(p *Program, prm *ssa.Parameter, rg map[*ssa.Global]string) ([]
 	}
 	var out []aval
 	var notes []string
-	sites := 0
-	for _, g := range p.RepoFuncs() {
-		if g.Pkg != fn.Pkg {
-			continue
+	for _, ci := range sites {
+		if pi >= len(ci.Common().Args) {
+			return nil, "", false
 		}
-		fns := []*ssa.Function{g}
-		fns = append(fns, g.AnonFuncs...)
-		for _, h := range fns {
-			for _, b := range h.Blocks {
-				for _, ins := range b.Instrs {
-					var ops [16]*ssa.Value
-					for _, op := range ins.Operands(ops[:0]) {
-						if op == nil || *op != ssa.Value(fn) {
-							continue
-						}
-						ci, isCall := ins.(ssa.CallInstruction)
-						if !isCall || ci.Common().Value != ssa.Value(fn) {
-							return nil, "", false // used as a value
-						}
-						if _, plain := ins.(*ssa.Call); !plain || pi >= len(ci.Common().Args) {
-							return nil, "", false
-						}
-						sites++
-						var roots []ssa.Value
-						rootsOf(ci.Common().Args[pi], map[ssa.Value]bool{}, &roots)
-						if len(roots) != 1 {
-							return nil, "", false
-						}
-						cl, note := lengthClasses(roots[0], rg)
-						notes = append(notes, note)
-						for _, c := range cl {
-							dup := false
-							for _, o := range out {
-								if eq(o, c) {
-									dup = true
-								}
-							}
-							if !dup {
-								out = append(out, c)
-							}
-						}
-					}
+		arg := ci.Common().Args[pi]
+		var roots []ssa.Value
+		rootsOf(arg, map[ssa.Value]bool{}, &roots)
+		var cl []aval
+		var note string
+		switch {
+		case len(roots) == 0:
+			// built from fresh allocations only: its length is static
+			n, ok := staticLenOf(ci.Parent(), arg, 0)
+			if !ok {
+				return nil, "", false
+			}
+			cl, note = []aval{sliceLen(n)}, fmt.Sprintf("static length %d", n)
+		case len(roots) == 1:
+			cl, note = lengthClasses(roots[0], rg)
+		default:
+			return nil, "", false
+		}
+		notes = append(notes, note)
+		for _, c := range cl {
+			dup := false
+			for _, o := range out {
+				if eq(o, c) {
+					dup = true
 				}
+			}
+			if !dup {
+				out = append(out, c)
 			}
 		}
 	}
-	if sites == 0 {
-		return nil, "", false
-	}
-	return out, fmt.Sprintf("parameter of an unexported function with %d direct call site(s): %s", sites, strings.Join(notes, "; ")), true
+	return out, fmt.Sprintf("parameter of an unexported function with %d direct call site(s): %s", len(sites), strings.Join(notes, "; ")), true
 }
 
 // pan3Model: summaries of regexp methods whose results are constants of the pattern.
@@ -784,11 +774,182 @@ func lowerBoundNonNeg(v ssa.Value, depth int) bool {
 		if b, ok := x.Common().Value.(*ssa.Builtin); ok && (b.Name() == "len" || b.Name() == "cap") {
 			return true
 		}
+		if calleeResultsNonNeg(x, 0, depth) {
+			return true
+		}
+	case *ssa.Extract:
+		if c, ok := x.Tuple.(*ssa.Call); ok && calleeResultsNonNeg(c, x.Index, depth) {
+			return true
+		}
 	}
 	if bt, ok := v.Type().Underlying().(*types.Basic); ok && bt.Info()&types.IsUnsigned != 0 {
 		return true
 	}
 	return false
+}
+
+// calleeResultsNonNeg: every return of the in-repo callee yields a non-negative idx-th result.
+func calleeResultsNonNeg(c *ssa.Call, idx int, depth int) bool {
+	sc := c.Common().StaticCallee()
+	if sc == nil || !inRepoFn(sc) || len(sc.Blocks) == 0 || depth > 4 {
+		return false
+	}
+	found := false
+	for _, b := range sc.Blocks {
+		ret, ok := b.Instrs[len(b.Instrs)-1].(*ssa.Return)
+		if !ok || idx >= len(ret.Results) {
+			continue
+		}
+		if !lowerBoundNonNeg(ret.Results[idx], depth+1) {
+			return false
+		}
+		found = true
+	}
+	return found
+}
+
+// upperBoundAt: a constant that v cannot exceed when control is in block at of
+// fn: a dominating `v <= Y` / `v < Y` test with a bounded Y, a bounded value
+// (constant, table lookup, min, parameter bounded at every call site), or the
+// result of an in-repo function bounded at each of its returns.
+func upperBoundAt(fn *ssa.Function, v ssa.Value, at *ssa.BasicBlock, depth int) (int64, bool) {
+	if depth > 5 {
+		return 0, false
+	}
+	idx := stripIntConv(v)
+	if ub, ok := smallUpperBound(idx, 0); ok {
+		return ub, true
+	}
+	best, found := int64(0), false
+	for _, b := range fn.Blocks {
+		ifi, ok := b.Instrs[len(b.Instrs)-1].(*ssa.If)
+		if !ok {
+			continue
+		}
+		cmp, ok := ifi.Cond.(*ssa.BinOp)
+		if !ok {
+			continue
+		}
+		x, y, op := cmp.X, cmp.Y, cmp.Op
+		if !sameAccess(stripIntConv(x), idx) {
+			if !sameAccess(stripIntConv(y), idx) {
+				continue
+			}
+			x, y, op = y, x, flipOp(op)
+		}
+		ub, ok := smallUpperBound(y, 0)
+		if !ok {
+			continue
+		}
+		var maxV int64
+		edge := 0
+		switch op {
+		case token.LEQ:
+			maxV = ub
+		case token.LSS:
+			maxV = ub - 1
+		case token.GTR: // !(v > y): v <= y on the false edge
+			maxV, edge = ub, 1
+		case token.GEQ:
+			maxV, edge = ub-1, 1
+		default:
+			continue
+		}
+		if edgeDominates(b, edge, at) && (!found || maxV < best) {
+			best, found = maxV, true
+		}
+	}
+	if found {
+		return best, true
+	}
+	var call *ssa.Call
+	ri := 0
+	switch x := idx.(type) {
+	case *ssa.Call:
+		call = x
+	case *ssa.Extract:
+		if c, ok := x.Tuple.(*ssa.Call); ok {
+			call, ri = c, x.Index
+		}
+	}
+	if call != nil {
+		sc := call.Common().StaticCallee()
+		if sc == nil || !inRepoFn(sc) || len(sc.Blocks) == 0 {
+			return 0, false
+		}
+		if prev, had := siteRestrict[sc]; had {
+			defer func() { siteRestrict[sc] = prev }()
+		} else {
+			defer delete(siteRestrict, sc)
+		}
+		siteRestrict[sc] = call
+		worst, any := int64(0), false
+		for _, b := range sc.Blocks {
+			ret, ok := b.Instrs[len(b.Instrs)-1].(*ssa.Return)
+			if !ok || ri >= len(ret.Results) {
+				continue
+			}
+			ub, ok := upperBoundAt(sc, ret.Results[ri], b, depth+1)
+			if !ok {
+				return 0, false
+			}
+			if !any || ub > worst {
+				worst, any = ub, true
+			}
+		}
+		return worst, any
+	}
+	return 0, false
+}
+
+// staticLenOf: the statically known length of a slice value in fn (constant
+// propagation with the callees analysed in context), or — for a parameter of an
+// unexported function that is only called directly — the smallest such length
+// among the arguments at its call sites.
+func staticLenOf(fn *ssa.Function, v ssa.Value, depth int) (int, bool) {
+	if depth > 3 {
+		return 0, false
+	}
+	an := newAnalyzer()
+	an.maxBlocks = 200
+	res := an.analyze(fn, nil)
+	if n, ok := lenOf(res.val(v)); ok {
+		return n, true
+	}
+	prm, ok := v.(*ssa.Parameter)
+	if !ok || theProgram == nil {
+		return 0, false
+	}
+	sites, ok := theProgram.directCallSites(fn)
+	if only := siteRestrict[fn]; only != nil {
+		sites, ok = []*ssa.Call{only}, true
+	}
+	if !ok {
+		return 0, false
+	}
+	pi := -1
+	for i, q := range fn.Params {
+		if q == prm {
+			pi = i
+		}
+	}
+	if pi < 0 {
+		return 0, false
+	}
+	least, any := 0, false
+	for _, c := range sites {
+		if pi >= len(c.Common().Args) {
+			return 0, false
+		}
+		n, ok := staticLenOf(c.Parent(), c.Common().Args[pi], depth+1)
+		if !ok {
+			return 0, false
+		}
+		if !any || n < least {
+			least, any = n, true
+		}
+	}
+	return least, any
 }
 
 func rulePAN3(p *Program) *RuleResult {
@@ -885,6 +1046,121 @@ func storesTo(al *ssa.Alloc) int {
 	return n
 }
 
+// cellFrozenAtCapture: the variable captured as fv is only read by the closure,
+// captured by no other closure, and the enclosing function neither stores to
+// it nor lets its address escape once the closure exists: every activation of
+// the closure sees the one value it had when the closure was made.
+func cellFrozenAtCapture(fv *ssa.FreeVar) bool {
+	al := capturedCell(fv)
+	if al == nil || al.Referrers() == nil || fv.Referrers() == nil {
+		return false
+	}
+	for _, ref := range *fv.Referrers() {
+		switch x := ref.(type) {
+		case *ssa.UnOp:
+			if x.Op != token.MUL {
+				return false
+			}
+		case *ssa.DebugRef:
+		default:
+			return false
+		}
+	}
+	var mc *ssa.MakeClosure
+	var stores []*ssa.Store
+	for _, ref := range *al.Referrers() {
+		switch x := ref.(type) {
+		case *ssa.MakeClosure:
+			if mc != nil || x.Fn != ssa.Value(fv.Parent()) {
+				return false
+			}
+			mc = x
+		case *ssa.Store:
+			if x.Addr != ssa.Value(al) {
+				return false
+			}
+			stores = append(stores, x)
+		case *ssa.UnOp, *ssa.DebugRef:
+		default:
+			return false
+		}
+	}
+	if mc == nil {
+		return false
+	}
+	after := reachableFrom(mc.Block())
+	for _, st := range stores {
+		if after[st.Block()] {
+			return false
+		}
+		if st.Block() == mc.Block() && instrIndex(st) > instrIndex(mc) {
+			return false
+		}
+	}
+	return true
+}
+
+// capturedLengths: the other captured variables of the closure that hold
+// len(v) of the captured slice variable loaded by root (both frozen when the
+// closure is made, the length taken after the last store to the slice).
+func capturedLengths(fn *ssa.Function, root ssa.Value) []ssa.Value {
+	ld, ok := root.(*ssa.UnOp)
+	if !ok || ld.Op != token.MUL {
+		return nil
+	}
+	fvJ, ok := ld.X.(*ssa.FreeVar)
+	if !ok || !cellFrozenAtCapture(fvJ) {
+		return nil
+	}
+	alJ := capturedCell(fvJ)
+	var out []ssa.Value
+	for _, fvI := range fn.FreeVars {
+		if fvI == fvJ || !cellFrozenAtCapture(fvI) {
+			continue
+		}
+		alI := capturedCell(fvI)
+		if storesTo(alI) != 1 {
+			continue
+		}
+		var stv ssa.Value
+		for _, ref := range *alI.Referrers() {
+			if st, ok := ref.(*ssa.Store); ok {
+				stv = st.Val
+			}
+		}
+		call, ok := stripIntConv(stv).(*ssa.Call)
+		if !ok {
+			continue
+		}
+		if bi, ok := call.Common().Value.(*ssa.Builtin); !ok || bi.Name() != "len" {
+			continue
+		}
+		src, ok := call.Common().Args[0].(*ssa.UnOp)
+		if !ok || src.X != ssa.Value(alJ) {
+			continue
+		}
+		// no store to the slice variable after its length was taken
+		later := reachableFrom(src.Block())
+		stale := false
+		for _, ref := range *alJ.Referrers() {
+			if st, ok := ref.(*ssa.Store); ok {
+				if later[st.Block()] || (st.Block() == src.Block() && instrIndex(st) > instrIndex(src)) {
+					stale = true
+				}
+			}
+		}
+		if stale {
+			continue
+		}
+		for _, ref := range *fvI.Referrers() {
+			if l, ok := ref.(*ssa.UnOp); ok && l.Op == token.MUL {
+				out = append(out, l)
+			}
+		}
+	}
+	return out
+}
+
 // pan3Regex: constant patterns of the package-level regexps (set by the PAN3 entry points).
 var pan3Regex map[*ssa.Global]string
 
@@ -978,7 +1254,47 @@ func valDescr(v ssa.Value) string {
 	return originDescr(v2)
 }
 
-func pan3Site(p *Program, r *RuleResult, s boundSite, rg map[*ssa.Global]string) {
+// callerAlias: for a function with exactly one direct call site, the caller and that site.
+func callerAlias(p *Program, fn *ssa.Function) (*ssa.Function, *ssa.Call, bool) {
+	sites, ok := p.directCallSites(fn)
+	if !ok || len(sites) != 1 {
+		return nil, nil, false
+	}
+	return sites[0].Parent(), sites[0], true
+}
+
+// argFor: the argument the single call site binds to parameter prm of fn.
+func argFor(fn *ssa.Function, site *ssa.Call, prm ssa.Value) ssa.Value {
+	for i, q := range fn.Params {
+		if ssa.Value(q) == prm && i < len(site.Common().Args) {
+			return site.Common().Args[i]
+		}
+	}
+	return nil
+}
+
+// pan3Alias: the key the site would have had in the single caller of its function.
+func pan3Alias(p *Program, s boundSite) string {
+	caller, site, ok := callerAlias(p, s.fn)
+	if !ok {
+		return ""
+	}
+	s2 := s
+	if a := argFor(s.fn, site, s.base); a != nil {
+		s2.base = a
+	}
+	return short(caller) + "|" + siteDescr(s2)
+}
+
+func pan3Site(p *Program, r0 *RuleResult, s boundSite, rg map[*ssa.Global]string) {
+	// obligations that are not discharged also carry the caller's key (see Obligation.Alias)
+	n0 := len(r0.Obs)
+	defer func() {
+		if len(r0.Obs) > n0 && r0.Obs[len(r0.Obs)-1].Status != Discharged {
+			r0.alias(pan3Alias(p, s))
+		}
+	}()
+	r := r0
 	fn := s.fn
 	key := short(fn) + "|" + siteDescr(s)
 	desc := s.kind + " " + siteDescr(s)
@@ -997,6 +1313,14 @@ func pan3Site(p *Program, r *RuleResult, s boundSite, rg map[*ssa.Global]string)
 		if (s.lo == nil || isConstVal(s.lo)) && (s.hi == nil || isConstVal(s.hi)) {
 			r.count("trivial_array", 1)
 			r.ok(key, desc, pos, "constant bounds on a fixed-size array (checked by the compiler)", false)
+			return
+		}
+	}
+	// D2b: index into a fixed-size array under a dominating constant bound within its length
+	if n, ok := arrayLenOfBase(s.base); ok && s.kind == "index" && lowerBoundNonNeg(s.idx, 0) {
+		if ub, ok := constUpperBound(s); ok && ub <= n {
+			r.count("trivial_array", 1)
+			r.ok(key, desc, pos, fmt.Sprintf("non-negative index below the constant bound %d (dominating test) into an array of %d elements", ub, n), true)
 			return
 		}
 	}
@@ -1070,6 +1394,12 @@ func pan3Site(p *Program, r *RuleResult, s boundSite, rg map[*ssa.Global]string)
 			// CSE) denote the same value when the location is not stored to
 			for _, alias := range sameLoads(fn, rt) {
 				an.pin[alias] = classes[i][assign[i]]
+			}
+			// captured variables that hold the length of this captured slice
+			if n, ok := lenOf(classes[i][assign[i]]); ok || classes[i][assign[i]].k == kNil {
+				for _, l := range capturedLengths(fn, rt) {
+					an.pin[l] = cInt(int64(n))
+				}
 			}
 			hyp = append(hyp, classes[i][assign[i]].String())
 		}
@@ -1166,6 +1496,11 @@ func boundsKnown(res *result, s boundSite) bool {
 	}
 	if s.kind == "index" {
 		if _, ok := constInt(get(s.idx)); ok {
+			return true
+		}
+		// a different constant in each analysed iteration of the enclosing loop (each
+		// checked against the operand's length when it was evaluated)
+		if res.versionedConst[s.idx] || res.versionedConst[stripIntConv(s.idx)] {
 			return true
 		}
 		// a non-negative index below a constant bound (dominating `idx < c`) that the
@@ -1521,40 +1856,35 @@ func boundedAgainstKnownLen(s boundSite) (bool, string) {
 	if !lowerBoundNonNeg(idx, 0) {
 		return false, ""
 	}
-	an := newAnalyzer()
-	an.maxBlocks = 200
-	res := an.analyze(s.fn, nil)
-	n, ok := lenOf(res.val(s.base))
+	// a site in an unexported function that is only called directly is decided once
+	// per call site, the parameters standing for that site's arguments
+	if theProgram != nil && siteRestrict[s.fn] == nil {
+		if sites, ok := theProgram.directCallSites(s.fn); ok {
+			if _, isPrm := s.base.(*ssa.Parameter); isPrm {
+				var hows []string
+				for _, c := range sites {
+					siteRestrict[s.fn] = c
+					ok, how := boundedAgainstKnownLen(s)
+					delete(siteRestrict, s.fn)
+					if !ok {
+						return false, ""
+					}
+					hows = append(hows, how)
+				}
+				sort.Strings(hows)
+				return true, fmt.Sprintf("for each of the %d call sites: %s", len(sites), strings.Join(hows, "; "))
+			}
+		}
+	}
+	n, ok := staticLenOf(s.fn, s.base, 0)
 	if !ok {
 		return false, ""
 	}
-	for _, b := range s.fn.Blocks {
-		ifi, ok := b.Instrs[len(b.Instrs)-1].(*ssa.If)
-		if !ok {
-			continue
-		}
-		cmp, ok := ifi.Cond.(*ssa.BinOp)
-		if !ok || !sameAccess(stripIntConv(cmp.X), idx) {
-			continue
-		}
-		ub, ok := smallUpperBound(cmp.Y, 0)
-		if !ok {
-			continue
-		}
-		var maxIdx int64
-		switch cmp.Op {
-		case token.LEQ:
-			maxIdx = ub
-		case token.LSS:
-			maxIdx = ub - 1
-		default:
-			continue
-		}
-		if edgeDominates(b, 0, s.ins.Block()) && maxIdx < int64(n) {
-			return true, fmt.Sprintf("induction variable bounded by %d (constant table) and the operand has static length %d", maxIdx, n)
-		}
+	ub, ok := upperBoundAt(s.fn, idx, s.ins.Block(), 0)
+	if !ok || ub >= int64(n) {
+		return false, ""
 	}
-	return false, ""
+	return true, fmt.Sprintf("index bounded by %d (dominating test against a constant table / bounded results and arguments) and the operand has static length %d", ub, n)
 }
 
 func leqProved(s boundSite, lo, hi ssa.Value) bool {
